@@ -326,7 +326,7 @@ func c12Valid(r *Rng, w c12Writer) string {
 		return c12From(r, c12Ascii, n)
 	case "DM":
 		n := c12LogLen(r, 200)
-		switch r.Intn(8) {
+		switch r.Intn(11) {
 		case 0:
 			return c12Digits(r, n)
 		case 1:
@@ -339,13 +339,31 @@ func c12Valid(r *Rng, w c12Writer) string {
 			return c12From(r, "@ABCDEFGHIJKLMNOPQRSTUVWXYZ[\\]^ !\"#$%&'()*+,-./0123456789:;<=>?", n) // EDIFACT
 		case 5:
 			return c12From(r, "\u0080\u0081 ÿéü", c12LogLen(r, 80)) // Base 256 (Latin-1 high half)
-		case 6: // mode mixtures
+		case 8, 9: // a run native to one encodation mode, one intruder the mode cannot encode, a short native tail:
+			// the mode encoders look ahead only at triplet / quadruplet boundaries
+			native := []string{
+				"@ABCDEFGHIJKLMNOPQRSTUVWXYZ[\\]^ !\"#$%&'()*+,-./0123456789:;<=>?", // EDIFACT
+				"+'=/\"#&(),:;<?[]^",                        // EDIFACT-only punctuation
+				"ABCDEFGHIJKLMNOPQRSTUVWXYZ0123456789 \r*>", // X12
+				"ABCDEFGHIJKLMNOPQRSTUVWXYZ0123456789 ",     // C40
+				"abcdefghijklmnopqrstuvwxyz0123456789 ",     // Text
+			}[r.Intn(5)]
+			intruders := "\r*>az_`{~\x00\x1e\x7f\u0080\u00ff9A !"
+			var sb strings.Builder
+			sb.WriteString(c12From(r, native, r.Range(3, 24)))
+			for k := r.Range(1, 3); k > 0; k-- {
+				sb.WriteString(c12From(r, intruders, r.Range(1, 2)))
+				sb.WriteString(c12From(r, native, r.Range(0, 9)))
+			}
+			return sb.String()
+		case 6, 7: // mode mixtures: short runs drawn from the character classes the six encodation modes care about
+			classes := []string{
+				"0123456789", "ABCDEFGHIJKLMNOPQRSTUVWXYZ", "abcdefghijklmnopqrstuvwxyz", " ", "\r*>", "\r",
+				"!\"#$%&'()+,-./:;<=?@[\\]^_", "`{|}~\x7f", "\x00\x01\x1d\x1e\x1f", "\u0080\u00a0\u00e9\u00ff",
+			}
 			var sb strings.Builder
 			for sb.Len() < n {
-				sb.WriteString(c12Valid(r, w))
-				if sb.Len() > 400 {
-					break
-				}
+				sb.WriteString(c12From(r, classes[r.Intn(len(classes))], r.Range(1, 7)))
 			}
 			return sb.String()
 		}
@@ -536,15 +554,16 @@ func c12PanicClass(out string) string {
 }
 
 type c12Case struct {
-	w        c12Writer
-	contents string
-	cclass   string
-	format   gozxing.BarcodeFormat
-	width    int
-	height   int
-	hints    []c12Hint
-	nilMap   bool
-	inStmt   bool
+	w         c12Writer
+	contents  string
+	cclass    string
+	format    gozxing.BarcodeFormat
+	width     int
+	height    int
+	hints     []c12Hint
+	nilMap    bool
+	inStmt    bool
+	knownHang bool // corpus witness of a known hang: no reference call, no 10x retry (every hung call leaks a spinning goroutine)
 }
 
 func (k *c12Case) hintMap() c14Hints {
@@ -597,16 +616,18 @@ func c12Run(c *Ctx, k *c12Case, d time.Duration) {
 	hints := k.hintMap()
 	// reference call: the encoder core's own outcome and the natural symbol size (0x0 request, margin 0, own format)
 	ref := "na"
-	if k.contents != "" || k.w.name == "UPC_A" { // the UPC-A writer prepends "0" before the emptiness check
+	if k.knownHang {
+		ref = "TIMEOUT"
+	} else if k.contents != "" || k.w.name == "UPC_A" { // the UPC-A writer prepends "0" before the emptiness check
 		ref = c12Call(d, k.w.w, k.contents, k.w.format, 0, 0, c12RefHints(k, hints))
 	}
 	out := c12Call(d, k.w.w, k.contents, k.format, k.width, k.height, hints)
-	if out == "TIMEOUT" {
+	if out == "TIMEOUT" && !k.knownHang {
 		// a loaded machine can starve a goroutine for seconds: only a call that also exceeds 10x the limit counts
 		c.Note("slow-call-retried")
 		out = c12Call(10*d, k.w.w, k.contents, k.format, k.width, k.height, hints)
 	}
-	if ref == "TIMEOUT" {
+	if ref == "TIMEOUT" && !k.knownHang {
 		ref = c12Call(10*d, k.w.w, k.contents, k.w.format, 0, 0, c12RefHints(k, hints))
 	}
 	in := k.input()
@@ -752,6 +773,9 @@ func c12Corpus(ws []c12Writer) []*c12Case {
 		mk("CODE_128", "1ñ", 0, 0, h(gozxing.EncodeHintType_FORCE_CODE_SET, "C", "str:43")),
 		// consequence of D16 (owned by C02): a size constraint makes an encoder fail, EncodeHighLevel drops the error
 		mk("DM", "j31lfm1lhq7bjvgsryl8icjib4oeu2mik97za5zs\u00f1", 0, 0, func() c12Hint { v, enc := c12Dim(18, 8); return h(gozxing.EncodeHintType_MAX_SIZE, v, enc) }()),
+		// another consequence of D16 (witness found by the C02 oracle): EDIFACT encodation meets a CR between two
+		// look-ahead points, the "illegal character" error is dropped and EncodeHighLevel spins forever
+		func() *c12Case { k := mk("DM", "LR+'=HBK5N2\r5=J\"/B", 0, 0); k.knownHang = true; return k }(),
 		// out-of-range ErrorCorrectionLevel value
 		mk("QR", "hello", 0, 0, h(gozxing.EncodeHintType_ERROR_CORRECTION, qrdecoder.ErrorCorrectionLevel(7), "other:ecl:7")),
 	}
